@@ -31,7 +31,8 @@ def demo():
     return rc == 0 and "no tests to run" not in out, out[-1500:]
 res = {"property": prop, "variant": x}
 assert sh("git status --porcelain --untracked-files=no")[1].strip() == "", "worktree not clean"
-rc, out = sh(f"git apply {sd}/patch.diff"); assert rc == 0, out
+PATCH = f"{sd}/patch.rebased.diff" if os.path.exists(f"{sd}/patch.rebased.diff") else f"{sd}/patch.diff"  # rebased onto a later fix by the harness author
+rc, out = sh(f"git apply {PATCH}"); assert rc == 0, out
 try:
     res["builds"] = sh("go build ./... && go build -tags verif ./...")[0] == 0
     rc, out = subprocess.run(["python3", "/verif/tools/baseline.py"], env=dict(env, VERIF_REPO=wt), capture_output=True, text=True).returncode, ""
@@ -40,7 +41,7 @@ try:
     sh("git checkout -- .")
     ok2, out2 = demo(); res["demo_passes_without_change"] = ok2
     if not ok2: res["demo_output_without_change"] = out2[-600:]
-    sh(f"git apply {sd}/patch.diff")
+    sh(f"git apply {PATCH}")
     vd = "/tmp/mv.seed." + prop + x; shutil.rmtree(vd, ignore_errors=True); os.makedirs(vd)
     shutil.copy("/verif/known_findings.json", vd); shutil.copytree("/verif/corpus", vd + "/corpus")
     subprocess.run(["/verif/tools/build.sh"], check=True)
@@ -55,7 +56,7 @@ finally:
     sh("git checkout -- .")
 dst = f"/verif/seeded/{prop}-{x}"; os.makedirs(dst, exist_ok=True)
 for f in glob.glob(f"{sd}/*"):
-    if os.path.basename(f) in ("patch.diff", "demo.sh", "demo_test.go.txt"):
+    if os.path.basename(f) in ("patch.diff", "patch.rebased.diff", "demo.sh", "demo_test.go.txt"):
         shutil.copy(f, dst)
 meta = json.load(open(f"{sd}/meta.json"))
 meta["confirmed_by_harness_author"] = res
